@@ -47,7 +47,7 @@ let exec toks =
   let nums () = List.map n_of_string args in
   let c = !chk in
   match op with
-  | "filter" -> let w = List.hd (nums ()) in Printf.sprintf "%s %s" (s_n (filter w)) (s_n (filter w))
+  | "filter" -> let w = List.hd (nums ()) in Printf.sprintf "%s %s" (s_n (card_filter w)) (s_n (card_filter w))
   | "create" -> (match nums () with [r; s] -> s_n (create r s) | _ -> failwith "create")
   | "acc" ->
       let w = List.hd (nums ()) in
@@ -265,7 +265,19 @@ let exec toks =
       s_res s_words (select ws p)
   | _ -> failwith ("unknown op " ^ op)
 
+(* model-side search (Model/Search.v): first class the current tables get wrong, with a concrete hand *)
+let find_mode () =
+  List.iter
+    (fun c ->
+      match first_bad_class c with
+      | None -> ()
+      | Some ((expected, cards), actual) ->
+          Printf.printf "FOUND chk=%d expected=%s actual=%s case=rankv 5 %s\n" (if c then 1 else 0) (s_n expected)
+            (s_res s_n actual) (s_words cards))
+    [ false; true ]
+
 let () =
+  if Array.exists (fun a -> a = "--find") Sys.argv then (find_mode (); exit 0);
   let verbose = Array.exists (fun a -> a = "--verbose") Sys.argv in
   Array.iteri (fun i a -> if a = "--chk" then chk := Sys.argv.(i + 1) = "1") Sys.argv;
   let buf = Buffer.create (1 lsl 20) in
